@@ -20,13 +20,14 @@ type c10roles struct {
 	spc  *types.Named // the per-request context: struct with *httpprot.Request, *http.Request, *httpprot.Response, *http.Response
 	spe  *types.Named // the pool's error: struct{int; string} implementing error
 
-	retryF, cbF *types.Var // fields of ServerPool of type resilience.Wrapper (told apart by who creates them)
-	timeoutF    *types.Var // the time.Duration field of ServerPool
-	reqF        *types.Var // *httpprot.Request field of spc
-	respF       *types.Var // *httpprot.Response field of spc
-	stdReqF     *types.Var // *http.Request field of spc
-	codeF       *types.Var // int field of spe
-	resultF     *types.Var // string field of spe
+	retryF, cbF *types.Var                // fields of ServerPool of type resilience.Wrapper (told apart by who creates them)
+	timeoutF    *types.Var                // the time.Duration field of ServerPool
+	reqF        *types.Var                // *httpprot.Request field of spc
+	respF       *types.Var                // *httpprot.Response field of spc
+	stdReqF     *types.Var                // *http.Request field of spc
+	holder      map[*types.Var]*types.Var // promoted field of spc -> the embedded struct field that holds it
+	codeF       *types.Var                // int field of spe
+	resultF     *types.Var                // string field of spe
 
 	handle  *flow.Func // outermost function that applies the retry wrapper
 	sendVar *types.Var // package-level func(*http.Request, *http.Client) (*http.Response, error)
@@ -44,6 +45,35 @@ func c10typeIs(t types.Type, ptr bool, pkgPath, name string) bool {
 	}
 	n, ok := t.(*types.Named)
 	return ok && n.Obj().Pkg() != nil && n.Obj().Pkg().Path() == pkgPath && n.Obj().Name() == name
+}
+
+// c10flatFields lists the fields of a struct including those promoted from embedded structs of the
+// same package (one level: `attemptState` embedded in the per-request context), with the embedded
+// field that holds each promoted one.
+func c10flatFields(st *types.Struct, pkg *types.Package) (fields []*types.Var, holder map[*types.Var]*types.Var) {
+	holder = map[*types.Var]*types.Var{}
+	for i := 0; i < st.NumFields(); i++ {
+		f := st.Field(i)
+		fields = append(fields, f)
+		if !f.Embedded() {
+			continue
+		}
+		t := f.Type()
+		if p, ok := t.(*types.Pointer); ok {
+			t = p.Elem()
+		}
+		n, ok := t.(*types.Named)
+		if !ok || n.Obj().Pkg() != pkg {
+			continue
+		}
+		if es, ok := n.Underlying().(*types.Struct); ok {
+			for j := 0; j < es.NumFields(); j++ {
+				fields = append(fields, es.Field(j))
+				holder[es.Field(j)] = f
+			}
+		}
+	}
+	return
 }
 
 // c10Roles resolves the roles once per run; nil (with checker errors) if a role is missing or ambiguous.
@@ -155,8 +185,9 @@ func c10Roles(c *core.Ctx) *c10roles {
 			continue
 		}
 		cnt := map[string]int{}
-		for i := 0; i < st.NumFields(); i++ {
-			t := st.Field(i).Type()
+		flat, _ := c10flatFields(st, pkg.Types)
+		for _, fv := range flat {
+			t := fv.Type()
 			switch {
 			case c10typeIs(t, true, Mod+c10hp, "Request"):
 				cnt["req"]++
@@ -198,8 +229,9 @@ func c10Roles(c *core.Ctx) *c10roles {
 		return nil
 	}
 	st := ro.spc.Underlying().(*types.Struct)
-	for i := 0; i < st.NumFields(); i++ {
-		f := st.Field(i)
+	flat, holder := c10flatFields(st, pkg.Types)
+	ro.holder = holder
+	for _, f := range flat {
 		switch {
 		case c10typeIs(f.Type(), true, Mod+c10hp, "Request"):
 			ro.reqF = f
@@ -242,7 +274,7 @@ func c10Roles(c *core.Ctx) *c10roles {
 	for _, g := range ro.pkgFuncs {
 		wraps := reachContains(g, 3, func(h *flow.Func, n ast.Node) bool {
 			call, ok := n.(*ast.CallExpr)
-			return ok && c10wrapKind(h, call, ro.retryF, ro.cbF) == "retry"
+			return ok && c10appliesRetry(h, call, ro.retryF, ro.cbF)
 		})
 		invokes := wraps && reachContains(g, 3, func(h *flow.Func, n ast.Node) bool {
 			call, ok := n.(*ast.CallExpr)
